@@ -438,6 +438,7 @@ func runC15(c C15Case, info *kit.Info) *kit.Finding {
 	}
 	var opened float64
 	gotSum, gotClosed := map[string]float64{}, map[string]float64{}
+	perKeyDir, perLocDir := map[string]float64{}, map[string]float64{}
 	for _, mf := range mfs {
 		for _, m := range mf.GetMetric() {
 			l := map[string]string{}
@@ -452,8 +453,18 @@ func runC15(c C15Case, info *kit.Info) *kit.Finding {
 			case "data_bytes":
 				if l["proto"] == "tcp" {
 					gotSum[l["dir"]+"|"+l["access_key"]] += m.GetCounter().GetValue()
+					perKeyDir[l["dir"]] += m.GetCounter().GetValue()
+				}
+			case "data_bytes_per_location":
+				if l["proto"] == "tcp" {
+					perLocDir[l["dir"]] += m.GetCounter().GetValue()
 				}
 			}
+		}
+	}
+	for d, v := range perKeyDir {
+		if perLocDir[d] != v {
+			return kit.Violation("tcpmetrics:collector-location-bytes", "data_bytes_per_location{proto=tcp,dir=%s} adds up to %v, data_bytes for the same direction to %v", d, perLocDir[d], v)
 		}
 	}
 	if int(opened) != len(met.TCPConns()) {
